@@ -93,3 +93,41 @@ PLANS = {
                ["C20:faulty-scan", "C20:odd-provider-id", "C20:zero-or-missing-allocatable", "C20:unparsable-taint", "C20:future-taint",
                 "C20:cloud-lookups", "C20:zero-capacity-error"]),
 }
+
+
+# ------------------------------------------------------------------ provider-level and function families (tools/funcs.py)
+
+AWS_ASSUMPTIONS = [
+    "the real aws.NodeGroup / aws.CloudProvider code runs over a stateful simulation of the AutoScaling and EC2 APIs (harness/world/simaws.go) that records every call with its arguments",
+    "AWS rules assumed: SetDesiredCapacity refused outside [min,max]; TerminateInstanceInAutoScalingGroup with decrement refused below min; AttachInstances <= 20 ids and raises desired capacity; TerminateInstances <= 1000 ids; instant fleets return all requested instances or none",
+    "fleet instance ids are numbered consecutively by the simulation, so calls can be compared as integer ranges",
+    "process exit (logrus Fatal) is intercepted through logrus' ExitFunc and treated as non-returning",
+]
+
+
+def aws_stage(quick_gen, thorough_gen, max_q=700, max_t=None):
+    return dict(gen=dict(quick=quick_gen, thorough=thorough_gen), cmd="awsgroup", trace="TraceAws", max_cases=dict(quick=max_q, thorough=max_t), args=["-par", "64"])
+
+
+GRID_Q = ("AwsGrid.tla", "AwsGrid.cfg", {})
+GRID_T = ("AwsGrid.tla", "AwsGrid.cfg", {"Tier": '"thorough"'})
+SMALL_Q = ("MCAws.tla", "MCAwsQuick.cfg", {})
+SMALL_T = ("MCAws.tla", "MCAws.cfg", {})
+
+PLANS["C17"] = dict(kind="func", stages=[aws_stage([SMALL_Q, GRID_Q], [SMALL_T, GRID_T], max_q=900)],
+                    rule="cases: every terminal behaviour of the small-step fleet model (size x fault point) and every point of the (min, max, desired, instances, d, "
+                         "lifecycle, overrides, subnets) grid, each run through the real NodeGroup.IncreaseSize; non-trivial: every case (each is a distinct input)",
+                    required_facts=["fleet", "set-desired", "rejected", "fleet-success", "fleet-attach-several-batches"], assumptions=AWS_ASSUMPTIONS)
+PLANS["C18"] = dict(kind="func", stages=[aws_stage([SMALL_Q, GRID_Q], [SMALL_T, GRID_T], max_q=900)],
+                    rule="cases: every terminal behaviour of the small-step fleet model: fleet sizes across the 20 and 1000 batch limits x {never ready, k-th attach fails for every k, "
+                         "any terminate call fails, create fails} x failure counter 0 / 2, run through the real provider; non-trivial: a case in which some step failed",
+                    required_facts=["fleet-never-ready", "fleet-attach-failed", "fleet-terminate-failed", "fleet-terminate-several-batches", "fleet-exit-after-3", "fleet-success"],
+                    assumptions=AWS_ASSUMPTIONS)
+PLANS["C19"] = dict(kind="func", stages=[aws_stage([GRID_Q], [GRID_T], max_q=1500)],
+                    rule="provider level: every (min, desired, instance list, node list with members / foreign nodes at every position, failing terminate) of the grid run through the real "
+                         "NodeGroup.DeleteNodes; controller level: order of cloud and Node deletes along histories and model states",
+                    required_facts=["del-not-in-group", "del-all-terminated", "del-refused-whole", "del-terminate-failed"], assumptions=AWS_ASSUMPTIONS + COMMON_ASSUMPTIONS,
+                    also_ctl=ctl(["force"], ["reap", "force"],
+                                 [D("reap", faults=30, odd=True), D("mix", faults=25, lag=True)],
+                                 [D("reap", n=60, steps=100, procs=8, faults=30, odd=True), D("mix", n=60, steps=100, procs=8, faults=25, lag=True)],
+                                 "see provider level", ["C19:node-deletes", "C19:terminate-failed", "C19:not-in-group", "C19:down-to-minimum"]))
